@@ -31,6 +31,13 @@ static const char *pc_name(int c) {
   return (c >= 0 && c < PC_N) ? n[c] : "?";
 }
 // deterministic construction from seed octets; falls back to kG when the class does not exist on the curve
+// does E(Fp) hold points outside <G>?  Decided from the group order itself (Hasse: #E = round((p+1)/n) * n for these sizes), not from the
+// cofactor constant of the library's curve table: id-GostR3410-2001-ParamSet-cc is listed with h = 1 although #E = 2n there.
+static bool has_outside(const Curve &c) {
+  Z q = (c.p + 1 + c.n / 2) / c.n;
+  return q > 1 || c.h > 1;
+}
+
 static Pt make_point(const CurveX &cx, int cls, const Bytes &seed, int &cls_out) {
   const Curve &c = cx.c;
   Pt g = ecref::G(c);
@@ -41,7 +48,7 @@ static Pt make_point(const CurveX &cx, int cls, const Bytes &seed, int &cls_out)
   case PC_TWO_G: return ecref::add(c, g, g);
   case PC_INF: return Pt();
   case PC_OUTSIDE: case PC_SMALL:
-    if (c.h > 1) {
+    if (has_outside(c)) {
       Z x = ecref::mod(z_of(seed), c.p);
       for (int i = 0; i < 64; i++, x = ecref::mod(x + 1, c.p)) {
         Pt P;
@@ -68,20 +75,20 @@ static const char *mut_name(int m) {
   return (m >= 0 && m < M_N) ? n[m] : "?";
 }
 struct CodecCase {
-  int ci = 0, le = 0, pcls = 0, enc = 0, mut = 0;
+  int ci = 0, le = 0, pcls = 0, enc = 0, mut = 0, reuse = 0;
   uint32_t mp = 0;
   Bytes seed;
   std::string ser() const {
     Writer w;
     w.i("ci", ci).s("curve", ci < (int)curves().size() ? curves()[ci].c.name : "?").i("le", le).i("pcls", pcls).s("pcls_name", pc_name(pcls));
-    w.i("enc", enc).s("enc_name", enc_name(enc)).i("mut", mut).s("mut_name", mut_name(mut)).u("mp", mp).b("seed", seed);
+    w.i("enc", enc).s("enc_name", enc_name(enc)).i("mut", mut).s("mut_name", mut_name(mut)).u("mp", mp).b("seed", seed).i("reuse", reuse);
     return w.str();
   }
   static CodecCase parse(const std::string &t) {
     Reader r(t);
     CodecCase c;
     c.ci = (int)r.i("ci"); c.le = (int)r.i("le"); c.pcls = (int)r.i("pcls"); c.enc = (int)r.i("enc"); c.mut = (int)r.i("mut");
-    c.mp = (uint32_t)r.u("mp"); c.seed = r.b("seed");
+    c.mp = (uint32_t)r.u("mp"); c.seed = r.b("seed"); c.reuse = (int)r.i("reuse");
     return c;
   }
 };
@@ -93,7 +100,7 @@ static int pick_curve() {
   int r = *range<int>(0, n + 7);
   if (r < n) return r;
   std::vector<int> h4;
-  for (auto &c : curves()) if (c.c.h > 1) h4.push_back(c.idx);
+  for (auto &c : curves()) if (has_outside(c.c)) h4.push_back(c.idx);
   return h4.empty() ? 0 : h4[(size_t)(r - n) % h4.size()];
 }
 static rc::Gen<CodecCase> genCodec() {
@@ -104,13 +111,14 @@ static rc::Gen<CodecCase> genCodec() {
     c.le = *range<int>(0, 1);
     {
       std::vector<std::pair<size_t, int>> w = {{8, PC_RANDOM}, {1, PC_G}, {1, PC_NEG_G}, {2, PC_INF}, {1, PC_TWO_G}};
-      if (cv.h > 1) { w.push_back({5, PC_OUTSIDE}); w.push_back({3, PC_SMALL}); }
+      if (has_outside(cv)) { w.push_back({5, PC_OUTSIDE}); w.push_back({3, PC_SMALL}); }
       size_t tot = 0;
       for (auto &e : w) tot += e.first;
       size_t r = *range<size_t>(0, tot - 1);
       for (auto &e : w) { if (r < e.first) { c.pcls = e.second; break; } r -= e.first; }
     }
     c.enc = *range<int>(0, PK_NENC - 1);
+    c.reuse = *rc::gen::weightedElement<int>({{3, 0}, {1, 1}});
     c.mut = *rc::gen::weightedElement<int>({{8, M_NONE}, {3, M_OFFCURVE}, {2, M_X_PLUS_P}, {2, M_Y_PLUS_P}, {1, M_X_EQ_P}, {3, M_PREFIX},
                                              {2, M_PARITY}, {2, M_TRUNC}, {2, M_EXTEND}, {2, M_NONRESIDUE}, {1, M_NULL_Y}, {1, M_ONE_BYTE},
                                              {1, M_ZERO_SIZE}});
@@ -180,6 +188,7 @@ static Verdict run_codec(const CodecCase &cc) {
   label(std::string("point:") + pc_name(pcls));
   label(le ? "order:le" : "order:be");
   if (c.h > 1) label("curve:cofactor4");
+  if (c.h == 1 && has_outside(c)) label("curve:table_cofactor_1_but_group_is_larger");
 
   // ---------------- export of P in the three forms the exporter offers (any point object is exportable)
   if (cc.mut == M_NONE) {
@@ -291,7 +300,9 @@ static Verdict run_codec(const CodecCase &cc) {
   if (pk.has_y) iy = In(pk.y);
   int inf = 0, xy_ok = 0;
   Bytes xb(ES_MAXB), yb(ES_MAXB);
+  if (cc.reuse) { es_pub_import_reuse_next(1); label("import_into_a_reused_point_object"); }
   int rc = es_pub_import(cx.idx, le, &ix, &iy, pk.size, &inf, xb.data(), yb.data(), &xy_ok);
+  es_pub_import_reuse_next(0);
   GUARD_OK("ecdsa_pub_key_import (" << enc_name(enc) << ", " << mut_name(mut) << ")");
   PBT_REQUIRE(rc < ES_RC_SHIM, "shim failure rc=" << rc);
   bool acc = rc == 0;
@@ -531,7 +542,7 @@ static rc::Gen<DhCase> genDh() {
     c.dpad = *range<int>(0, 1);
     {
       std::vector<std::pair<size_t, int>> w = {{10, PE_NORMAL}, {1, PE_INF}, {1, PE_D_GE_N}, {1, PE_D_ZERO}};
-      if (cv.h > 1) { w.push_back({5, PE_OUTSIDE}); w.push_back({3, PE_SMALL}); }
+      if (has_outside(cv)) { w.push_back({5, PE_OUTSIDE}); w.push_back({3, PE_SMALL}); }
       size_t tot = 0;
       for (auto &e : w) tot += e.first;
       size_t r = *range<size_t>(0, tot - 1);
@@ -584,7 +595,7 @@ static Verdict run_dh(const DhCase &dc) {
   Z dA = z_of(dc.da), dB = z_of(dc.db);
   if (dA < 1 || dA >= n || dB < 1 || dB >= n) return Verdict::pass();
   int peer = dc.peer;
-  if ((peer == PE_OUTSIDE || peer == PE_SMALL) && c.h == 1) peer = PE_NORMAL;
+  if ((peer == PE_OUTSIDE || peer == PE_SMALL) && !has_outside(c)) peer = PE_NORMAL;
   if (peer == PE_D_GE_N && n >= lim && dc.mode != ES_BN) peer = PE_NORMAL;
   label(std::string("dh:") + mode_name(dc.mode) + (dc.cof ? ":cofactor" : ":plain"));
   label(std::string("peer:") + peer_name(peer));
